@@ -69,6 +69,14 @@ func VerifC16Len(v *verifrt.T) {
 func c16dirtyPool(v *verifrt.T) {
 	d := make([]byte, MaxMessageSize)
 	copy(d, v.Bytes(40, "stale"))
+	if !v.Symbolic() {
+		// natively earlier runs in the same process have left buffers in the pool; take them
+		// out so that the stale one is what the next encoder gets (sync.Pool serves the
+		// per-P private slot first). Under the executor every path starts with an empty pool.
+		for i := 0; i < 16; i++ {
+			buffers.Get()
+		}
+	}
 	buffers.Put(&byteBuffer{buf: d})
 }
 
